@@ -193,6 +193,7 @@ static void body()
     vrt::require("format.long_output", 20);
     vrt::require("insert.cases", 1000);
     vrt::require("extract.tokens", 1000);
+    vrt::require("pad_sweep.lengths", 301);
 
     vrt::phase("formats", vrt::tier_count(300000, 6000000), [&](uint64_t, Rng &r) {
         Values v;
@@ -221,6 +222,19 @@ static void body()
         sink_case(shape, v, fmt);
     });
 
+    // every padding length 0..300 (block-wise fill loops in a sink would show at multiples of the block size)
+    vrt::phase("pad_sweep", 301, [&](uint64_t pad, Rng &r) {
+        Values v;
+        random_values(r, v);
+        v.text = "abc"; v.cstr = v.text.c_str(); v.i = -42; v.st = ST::string("xy");
+        sink_case(2, v, sfmt("[{>%llu}]", static_cast<unsigned long long>(pad + 3)));
+        sink_case(2, v, sfmt("{<%llu}|", static_cast<unsigned long long>(pad + 3)));
+        sink_case(1, v, sfmt("{_*%llu}", static_cast<unsigned long long>(pad + 3)));
+        sink_case(1, v, sfmt("{0%llu}", static_cast<unsigned long long>(pad + 3)));
+        sink_case(5, v, sfmt("{&2_.<%llu}{&1}", static_cast<unsigned long long>(pad + 2)));
+        vrt::count("pad_sweep.lengths");
+    });
+
     vrt::phase("insert_extract", vrt::tier_count(150000, 3000000), [&](uint64_t, Rng &r) {
         // valid text of every width class, around the small-string limit
         std::vector<unsigned long> cps;
@@ -238,7 +252,7 @@ static void body()
         std::vector<unsigned long> src;
         for (size_t t = r.below(5); t-- > 0;) {
             for (size_t k = r.below(3); k-- > 0;) src.push_back(r.pick(seps));
-            for (size_t k = 1 + r.below(20); k-- > 0;) { unsigned long c = random_cp(r); src.push_back(c == ' ' ? 'x' : c); }
+            for (size_t k = 1 + r.below(20); k-- > 0;) { unsigned long c = r.chance(1, 25) ? 0 : random_cp(r); src.push_back(c == ' ' ? 'x' : c); }   // tokens may contain U+0000
         }
         for (size_t k = r.below(3); k-- > 0;) src.push_back(r.pick(seps));
         extract_case<char>("char", src);
